@@ -337,7 +337,11 @@ func predict(c *core.Ctx, scen []*Scenario, timeout time.Duration) bool {
 		lays = append(lays, l)
 	}
 	b := ScriptBounds()
-	m, err := RunModel(c, ModelRun{Name: "predict", Family: "gen", Bnd: b, Given: given, Layouts: lays, Sorted: false, Sw: CodeSwitches(), EmitAll: true,
+	// C17_SELFTEST=sorted_model (sensitivity of the binding): predict with the REPAIRED collector; the
+	// real variation of the instance ids is then no longer a predicted one and must be reported as a
+	// violation instead of the known finding.
+	sorted := os.Getenv("C17_SELFTEST") == "sorted_model"
+	m, err := RunModel(c, ModelRun{Name: "predict", Family: "gen", Bnd: b, Given: given, Layouts: lays, Sorted: sorted, Sw: CodeSwitches(), EmitAll: true,
 		Invs: []string{"BSeenOK", "BEmit"}, Workers: 4, Timeout: timeout})
 	if err != nil || !tlcx.MustComplete(c, m.Res, err, "Build.tla (prediction for the scenarios)") {
 		if err != nil {
@@ -519,6 +523,13 @@ func (ck *checker) check(s *Scenario, replaying bool) {
 		}
 		jb.b.Err = firstLineOf(res.Err)
 		jb.b.JS, jb.b.Map, jb.b.sets = res.JSSum, res.MapSum, res.Sets
+		if os.Getenv("C17_SELFTEST") == "perturb" && strings.HasSuffix(filepath.Dir(jb.b.out), "b003") && jb.b.Map != "" {
+			// sensitivity of the binding: one build's source map hash is falsified
+			jb.b.Map = "0" + jb.b.Map[1:]
+			if res.MapSum[0] == '0' {
+				jb.b.Map = "1" + res.MapSum[1:]
+			}
+		}
 		jb.b.Sets = normKey(setsKey(res.Sets, "vp"))
 	}
 	var bs []*build
